@@ -57,7 +57,7 @@ class C13(Prop):
     level = "fault_enumeration"
     tiers = {
         "quick": [("share", 120000), ("cancel", 120000), ("sweep", 10000)],
-        "thorough": [("share", 2400000), ("cancel", 2400000), ("sweep", 200000)],
+        "thorough": [("share", 2400000), ("cancel", 2400000), ("sweep", 200000), ("share-deep", 300000), ("cancel-deep", 300000), ("sweep-deep", 15000)],
     }
     rule_text = (
         "one case = 2..6 callers over 1..3 keys (function or method flavour), limit 1..2, expiration none/1s, invocation "
@@ -77,7 +77,7 @@ class C13(Prop):
 
     def expand(self, seed, profile, run, sample):
         from sim.source import Source
-        if profile == "sweep":
+        if profile.removesuffix("-deep") == "sweep":
             return sweep_expand(self, seed, profile, run, sample)
         return run(Source(seed), sample)
 
@@ -86,10 +86,12 @@ class C13(Prop):
 
         s = sim.source
         method = bool(s.draw(2, "method"))
-        n_callers = 2 + s.weighted((3, 3, 2, 1, 1), "ncallers")
-        n_keys = 1 + s.weighted((3, 2, 1), "nkeys")
+        deep = profile.endswith("-deep")
+        profile = profile.removesuffix("-deep")
+        n_callers = (4 + s.draw(6, "ncallers")) if deep else (2 + s.weighted((3, 3, 2, 1, 1), "ncallers"))
+        n_keys = 1 + (s.draw(4, "nkeys") if deep else s.weighted((3, 2, 1), "nkeys"))
         scoped = [s.chance(1, 3, "caller-in-scope") for _ in range(n_callers)]
-        limit = 1 + s.weighted((3, 2), "limit")
+        limit = 1 + (s.draw(3, "limit") if deep else s.weighted((3, 2), "limit"))
         exp_steps = (None, 1024)[s.weighted((2, 1), "exp")]
         expiration = None if exp_steps is None else exp_steps * GRID
         callers = [{"key": s.draw(n_keys, "key")} for _ in range(n_callers)]
